@@ -8,6 +8,7 @@ import (
 	"net/http"
 	"strconv"
 	"strings"
+	"sync/atomic"
 	"time"
 
 	"github.com/hashicorp/raft"
@@ -206,20 +207,22 @@ func (api *HTTP) handleGetMessages(w http.ResponseWriter, r *http.Request, sessi
 	ctx, cancel := context.WithCancel(r.Context())
 	// Cancel the helper goroutines we are about to start when this
 	// request handler returns.
-	wasSuperseded := false
+	// wasSuperseded is set by the request which supersedes this one (from
+	// its goroutine) and read by this request, hence atomic.
+	var wasSuperseded int32
 	cancelAll := func(superseded bool) {
 		if superseded {
 			// cancelAll will be called after the context cancellation
 			// via defer, so save that this GetMessages request was
 			// superseded.
-			wasSuperseded = true
+			atomic.StoreInt32(&wasSuperseded, 1)
 		}
 		cancel()
 		// Wake up the getMessages goroutine from its GetNext call
 		// to quickly free up resources.
 		api.output().InterruptGetNext()
 
-		if !wasSuperseded {
+		if atomic.LoadInt32(&wasSuperseded) == 0 {
 			api.deleteGetMessagesRequests(sessionId)
 		}
 	}
